@@ -1026,6 +1026,8 @@ class CollapseCollector(WrappingCollector):
         else:
             # Otherwise, use the results order
             sortkey = child.sort_key(sub_docnum)
+        # Wrap the key so that None (no sort key) can be compared
+        sortkey = sorting.none_first(sortkey)
 
         # Current list of best docs for this collapse key
         best = lists[ckey]
